@@ -683,20 +683,31 @@ def r17_7(ctx):
         ty = b.local_ty(a["place"]["local"]) if a.get("place") else "?"
         base = ty.replace("&mut ", "").replace("&", "")
         ok = base.startswith("std::io::StdinLock") or base == "std::io::Stdin"
+        if not ok:
+            # the reader's static type may be a generic parameter of an (inlined) helper: decide
+            # from the value that is passed -- the stdin handle or its lock, with nothing in between
+            ex = Exprs(b)
+            e = strip_refs(ex.call_args(bb)[0])
+            if e[0] == "call" and e[1] in ("std::io::Stdin::lock", "std::io::Stdin::lock::<'_>") and len(e[2]) == 1:
+                e = strip_refs(e[2][0])
+            ok = e[0] == "call" and e[1] == "std::io::stdin" and not e[2]
+            base = show_expr(strip_refs(ex.call_args(bb)[0]), b)[:80]
         ctx.ob("read_from_gui:line-framing", ok, b.where(b.term_loc(bb)),
                "read_line on `%s`%s" % (base, "" if ok else ": an adaptor between stdin and read_line can end a read in the middle of a line, and the remainder is then dispatched as a command of its own"))
     if n == 0:
         raise AnchorMissing("no line read (read_line / read_until) in %s" % READ)
 
 
+# (an `Rc`/`Arc` of plain data is immutable sharing; it matters only through one of these inside it, and the
+# type string of the local shows the whole nesting)
 SHARED_MUT = ("std::sync::mpsc::", "std::cell::", "std::sync::Mutex", "std::sync::RwLock", "std::sync::atomic::",
-              "std::rc::Rc<", "std::sync::Arc<", "std::sync::OnceLock", "std::sync::LazyLock")
+              "std::sync::OnceLock", "std::sync::LazyLock", "std::sync::Condvar")
 
 
 def r16_6(ctx):
     """Nothing with shared-mutable content survives from one command to the next: (a) no value created
     before the command loop and used inside it has a type that can carry state behind a shared reference
-    (a channel endpoint, a cell, a lock, an atomic, a reference-counted pointer) - R16.2 sees only locals
+    (a channel endpoint, a cell, a lock, an atomic - also inside an Rc/Arc) - R16.2 sees only locals
     that are *assigned* in the loop; (b) the channel the go handler reads the search's moves from is created
     inside that handler, so what an earlier search queued can never be read as the answer to this `go`."""
     from wa.expr import data_slice
